@@ -39,3 +39,25 @@ Theorem C02_union_isets_kernel_text_computes_model : forall l fuel,
   end.
 Proof. exact Jitunion_isets_func.k_jitunion_isets_computes_model. Qed.
 Print Assumptions C02_union_isets_kernel_text_computes_model.
+
+(* jitintersect and jitdiff (with their parent-index columns, which IntervalSet.intersect / set_diff use to carry
+   metadata): no hypothesis at all.  Proofs in Inv/Jitintersect_func.v and Inv/Jitdiff_func.v. *)
+From Verif Require Inv.Jitintersect_func Inv.Jitdiff_func.
+
+Theorem C02_intersect_kernel_text_computes_model : forall A B fuel,
+  match run fuel k_jitintersect (Jitintersect_func.iset_args A B) with
+  | Return rs => rs = Jitintersect_func.inter_result (k_inter_meta A B)
+  | OutOfFuel => True
+  | _ => False
+  end.
+Proof. exact Jitintersect_func.k_jitintersect_computes_model. Qed.
+Print Assumptions C02_intersect_kernel_text_computes_model.
+
+Theorem C02_diff_kernel_text_computes_model : forall A B fuel,
+  match run fuel k_jitdiff (Jitintersect_func.iset_args A B) with
+  | Return rs => rs = Jitdiff_func.diff_result (k_diff_meta A B)
+  | OutOfFuel => True
+  | _ => False
+  end.
+Proof. exact Jitdiff_func.k_jitdiff_computes_model. Qed.
+Print Assumptions C02_diff_kernel_text_computes_model.
